@@ -2,7 +2,7 @@
 import itertools
 
 ID = 'C01'
-LEAN_MODULES = ['C01', 'C01b', 'C01c', 'C01d', 'C01e']
+LEAN_MODULES = ['C01', 'C01b', 'C01c', 'C01d', 'C01e', 'C01f']
 RULE = ('one case = 2-4 REAL nodes (KeyspaceGroup + MemStore + Clock + datacake_rpc Server with the real ConsistencyService and ReplicationService on loopback; no chitchat), 3-25 events: client put/del/put_many/del_many '
         'applied locally exactly as ReplicatedStoreHandle does (stamps from the real clocks are fed to the model), their replication messages delivered / dropped / duplicated / reordered / batched through the real RPC clients, '
         'purges, late deliveries, anti-entropy exchanges in the middle of the history (so that later polls meet trackers); then - after the last operation - every ordered pair (j,i) completes one anti-entropy exchange (real poll_keyspace -> get_state -> Diff -> handle_removals / handle_modified with fetch_docs) '
@@ -11,7 +11,7 @@ RULE = ('one case = 2-4 REAL nodes (KeyspaceGroup + MemStore + Clock + datacake_
         'histories; non-trivial = at least one message lost or reordered and at least one conflict on an id; distinct by hash')
 ASSUMPTIONS = ['the background timers (1 s batching, repair interval) and chitchat are not modelled: the events of a case are the things those timers trigger',
                'all operations of a case are issued within one forgiveness period (they are: real clocks, milliseconds apart)',
-               'storage does not fail during a C01 history']
+               'storage may fail on a replica during the history (a delivery or an exchange whose storage call fails: C01f.xrun_invF); a failing LOCAL write is not generated (the handle reports it and nothing is replicated: it is not an issued operation); every node completes fault-free exchanges at the end']
 TRUSTED_BASE = ['correspondence: dcharness (real nodes over loopback RPC; hook H2 for the sequential repair entry points) vs dcdriver (Datacake.Cluster model); LWW oracle = Datacake.Lww.lww over all issued operations']
 THEOREM_NOTE = 'Datacake.Cluster.applyAt / repair (Model/Cluster.lean)'
 JOBS = 6
@@ -63,7 +63,12 @@ def gen_case(rng, idx, fixed_pairs=None):
             (j, k2) = k_sp['pending'].pop()
             fate = rng.below(5)
             if fate == 0: continue                       # lost
-            lines.append('deliver %d %d' % (j, k2))
+            if len(spaces) == 1 and rng.chance(1, 6):
+                # the replica's storage fails on this delivery: the message is lost for the replica (C01f: no abstract event),
+                # repair must bring the operation later; the fault is cleared if the handler made no storage call
+                lines += ['failnext %d' % j, 'deliver %d %d' % (j, k2), 'clearfail %d' % j]
+            else:
+                lines.append('deliver %d %d' % (j, k2))
             if fate == 1: lines.append('deliver %d %d' % (j, k2))   # duplicated
             if fate == 2: k_sp['pending'].insert(0, (j, k2))     # will be delivered again later
         if rng.chance(1, 5) and k_sp['nops'] >= 1:
@@ -91,7 +96,11 @@ def gen_case(rng, idx, fixed_pairs=None):
                     elif k_sp['nops'] >= 1: lines.append('deliver %d %d' % (rng.choice([i2, i2, j]), rng.below(k_sp['nops'])))
                 lines.append('repair-end %d %d' % (j, i2))
             else:
-                lines.append('repair %d %d %d' % (j, i2, m) if m < 2 else 'repairc %d %d' % (j, i2) if m == 2 else 'repairm %d' % j)
+                if m < 2 and len(spaces) == 1 and rng.chance(1, 5):
+                    # an exchange whose first storage call fails: nothing is applied, the tracker is not updated (C01f.repair_fail)
+                    lines += ['failnext %d' % j, 'repair %d %d %d' % (j, i2, m), 'clearfail %d' % j]
+                else:
+                    lines.append('repair %d %d %d' % (j, i2, m) if m < 2 else 'repairc %d %d' % (j, i2) if m == 2 else 'repairm %d' % j)
         if rng.chance(1, 4): lines.append('read %d' % rng.below(n))
     # quiescence: every ordered pair completes an exchange (each covers every keyspace), late deliveries in between
     pairs = fixed_pairs if fixed_pairs is not None else rng.shuffle([(j, i) for j in range(n) for i in range(n) if i != j])
@@ -194,6 +203,8 @@ def canon(line, out):
         # safe for the poller: a reply stamped with the peer's final change stamp carries the final set
         safe = d['has1'] == 'true' and (d['stamp_is_final'] == 'false' or d['has2'] == 'true')
         return 'race safe' if safe else 'race UNSAFE ' + ' '.join('%s=%s' % (k, d[k]) for k in ('stamp_is_final', 'has1', 'has2'))
+    if line.startswith(('repair ', 'repair-end')) and out.startswith('err'):
+        return 'err'                  # the text of the storage error is not modelled
     return out
 
 
